@@ -13,6 +13,9 @@ import jax
 jax.config.update('jax_enable_x64', True)
 import jax.numpy as jp
 import numpy as np
+import os
+import tempfile
+
 import z3
 import jax._src.core as jcore
 
@@ -498,12 +501,8 @@ class Ctx:
     for r in self.sqrt_candidates:
       fr = Fr()
       rl = lift(r)
-      s = z3.Solver()
-      s.set('timeout', self.lemma_timeout)
-      s.add([fr.formula(x) for x in self.assume])
-      s.add(z3.Not(z3.And(fr.formula(a == rl * rl), fr.formula(rl >= 0))))
       self.lemma_stats['queries'] += 1
-      if s.check() == z3.unsat:
+      if lemma_unsat([fr.formula(x) for x in self.assume] + [z3.Not(z3.And(fr.formula(a == rl * rl), fr.formula(rl >= 0)))], self.lemma_timeout):
         res = r
         self.lemma_stats['folded'] += 1
         break
@@ -635,19 +634,12 @@ class Ctx:
       pre = [fr.formula(x) for x in self.assume + self.side]
     except NotImplementedError:
       p2, pre = p, self.assume + self.side
-    s = z3.Solver()
-    s.set('timeout', self.lemma_timeout)
-    s.add(pre)
-    s.push()
-    s.add(p2)
     self.fold_stats['queries'] += 1
-    if s.check() == z3.unsat:
+    if lemma_unsat(list(pre) + [p2], self.lemma_timeout):
       res = False
     else:
-      s.pop()
-      s.add(z3.Not(p2))
       self.fold_stats['queries'] += 1
-      if s.check() == z3.unsat:
+      if lemma_unsat(list(pre) + [z3.Not(p2)], self.lemma_timeout):
         res = True
     if isc(res):
       self.fold_stats['folded'] += 1
@@ -655,6 +647,41 @@ class Ctx:
     self.fold_cache[k] = (p, res)
     return res
 
+
+
+# --------------------------------------------------------------------------- lemma queries in a killable subprocess
+_LEMMA_WORKER = [None]
+
+
+def lemma_unsat(formulas, timeout_ms):
+  """True iff the conjunction of `formulas` is shown unsat within the timeout.  Solved in a worker subprocess that is KILLED when it overruns
+  (in-process nlsat can ignore its timeout for minutes); anything but a clean `unsat` answer counts as not shown."""
+  from . import solve as _solve
+  fs = [f for f in formulas if not (isinstance(f, bool) and f)]
+  if any(isinstance(f, bool) and not f for f in fs):
+    return True
+  if not fs:
+    return False
+  ctx = z3.main_ctx()
+  n = len(fs) - 1
+  arr = (z3.Ast * max(n, 1))()
+  for i in range(n):
+    arr[i] = fs[i].as_ast()
+  smt2 = z3.Z3_benchmark_to_smtlib_string(ctx.ref(), 'lemma', '', 'unknown', '', n, arr, fs[-1].as_ast())
+  os.makedirs(_solve.SCRATCH, exist_ok=True)
+  fd, path = tempfile.mkstemp(suffix='.smt2', prefix='lemma', dir=_solve.SCRATCH)
+  try:
+    with os.fdopen(fd, 'w') as f:
+      f.write(smt2)
+    if _LEMMA_WORKER[0] is None:
+      _LEMMA_WORKER[0] = _solve._Worker()
+    r = _LEMMA_WORKER[0].solve(path, max(timeout_ms / 1000.0, 0.05), None, grace=2.0)
+  finally:
+    try:
+      os.unlink(path)
+    except OSError:
+      pass
+  return r.get('status') == 'unsat'
 
 # --------------------------------------------------------------------------- interpreter
 
